@@ -1,5 +1,5 @@
 """property -> rules"""
-from . import rules_dd, rules_bounds, rules_limits, rules_tools, rules_conv, rules_handles, rules_access, rules_coders, rules_errors, rules_layout, rules_ann, rules_mem, rules_sd, rules_cache, rules_attr, rules_gr, rules_ref
+from . import rules_dd, rules_bounds, rules_limits, rules_tools, rules_conv, rules_handles, rules_access, rules_coders, rules_errors, rules_layout, rules_ann, rules_mem, rules_sd, rules_cache, rules_attr, rules_gr, rules_ref, rules_repack
 
 CLANG = "clang 14 parser, constant evaluator and CFG builder (via tools/h4x.cc)"
 CDB = "compile flags taken from ninja -t compdb of /repo/_build (or a throw-away cmake configure)"
@@ -284,7 +284,18 @@ PROPS["C04"]["explanation"] = PROPS["C04"]["explanation"].replace(" Not decided 
 PROPS["C05"]["rules"] = PROPS["C05"]["rules"] + [rules_ref.rule_seek_resets_cursor]
 PROPS["C06"]["rules"] = PROPS["C06"]["rules"] + [rules_ref.rule_converted_value_used]
 
-NOT_APPLICABLE = {
-    "C18": "hrepack content preservation/idempotence is value-level over file x option products; no structural clause is a genuine "
-           "necessary condition that is not already another property's rule",
+PROPS["C18"] = {
+    "rules": [rules_repack.rule_traverse, rules_repack.rule_io_roles, rules_repack.rule_copy_results, rules_repack.rule_out_failures],
+    "level": "other",
+    "explanation": "Decides structural necessary conditions of 'hrepack preserves all content': (TRAVERSE) list_main returns SUCCEED only on paths on which each traversal routine (list_vg, list_sds, list_vs, list_glb, list_pal, list_an, and list_gr when the file has GR elements) was called and seen not to fail, and the member switch of the Vgroup traversal has a copying arm for every object kind a Vgroup can hold (Vgroup, SD/SDG/NDG, RI/CI/RIG/RI8/CI8/II8, VH); (IOROLE) every HDF handle in the hrepack sources gets a role from the function's parameters (`*_in`, `infile*`, `<stem>_id` next to `<stem>_out` are input, `*out*` output), propagated through select/create/attach calls; every reading API call takes an input handle and every mutating API call an output handle; (COPYERR) the result of every copy_*/list_* routine called during the traversal is consumed; (OUTFAIL) when a mutating or closing API call on an output handle is seen to fail, the function does not return its success value on that path. Not decided (value-level): that the copied values, names and attributes are equal, the layout decisions of the option table, idempotence.",
+    "rule_text": "instances = traversal routines and member kinds (11), API calls on handles with a known role (~105), copy/list call sites (~37), mutating/closing calls on output handles (~60)",
+    "trusted": [CLANG, CDB, "the reader/mutator classification of the HDF API names in rules_repack.py", "rules/outfail_unconfirmed.txt"],
+    "assumptions": ["handle roles follow the parameter naming convention of the hrepack sources (a variable used in both roles is reported as not decided)"],
+    "level_text": "All-paths traversal completeness and in/out role discipline of a copy tool: holds for every input file and option set, where the tests compare a handful of files with hdiff.",
+    "level_note": "Thin by design: equality of content is value-level. Three defects found with these rules were fixed (dropped copy results, swallowed output-close failures).",
+    "technique": "must-pass-through with call outcomes, role propagation over the resolved call sites, swallowed-failure typestate",
+    "scope": "lib+tools",
 }
+
+NOT_APPLICABLE = {}
+
